@@ -64,6 +64,14 @@ struct Explorer {
     const Family   &f = *fam;
     if (!w.ch || w.destroyed) return v;
     Budget b = budget_of(h);
+    {
+      // the scripted preamble of the configuration is not charged
+      const Cfg *c = w.cfg;
+      for (auto &pe : c->preamble) {
+        if (b.n[pe[0]] > 0) b.n[pe[0]]--;
+        if ((pe[0] == EV_FAULT || pe[0] == EV_FORGE) && b.dev > 0) b.dev--;
+      }
+    }
     auto   on = [&](int k) { return (f.evmask >> k) & 1u; };
     if (on(EV_REQ) && b.n[EV_REQ] < f.max_req) {
       for (int r : f.req_menu) {
@@ -233,6 +241,7 @@ struct Explorer {
     // root
     {
       History h;
+      for (auto &pe : fam->cfgs[(size_t)cfgi].preamble) h.push_back(mk(pe[0], pe[1], pe[2]));
       vf::set_current_case(replay_json(cfgi, h), oracles.empty() ? "EXA" : oracles[0] + ":crash");
       Result r = exec(cfgi, h, true, false);
       rep.executions++;
